@@ -249,7 +249,7 @@ func oaDocs(tier string) []oaDoc {
 		for _, k := range oaKinds {
 			for _, req := range []bool{false, true} {
 				for ni, n := range oaNames {
-					if tier != "thorough" && ni > 0 && k != "string" && k != "ref" && k != "array-ref" {
+					if tier != "thorough" && ni > 0 && k != "string" && k != "ref" && k != "array-ref" && k != "object" {
 						continue
 					}
 					out = append(out, oaDoc{Version: v, Schemas: []oaSchema{{Name: "S", Props: []oaProp{{Name: n, Kind: k, Required: req}}}}})
@@ -684,8 +684,18 @@ type xsdAttr struct {
 	Required bool   `json:"req"`
 }
 type xsdDoc struct {
-	Elems []xsdElem `json:"elems"`
-	Attrs []xsdAttr `json:"attrs"`
+	Elems   []xsdElem    `json:"elems"`
+	Attrs   []xsdAttr    `json:"attrs"`
+	Derived []xsdDerived `json:"derived,omitempty"`
+}
+
+// xsdDerived: a complex type derived by xs:extension, from xs:string (simpleContent) or from Base
+// (complexContent), adding elements (complexContent only) and attributes.
+type xsdDerived struct {
+	Name    string    `json:"name"`
+	Content string    `json:"content"` // simple | complex
+	Elems   []xsdElem `json:"elems"`
+	Attrs   []xsdAttr `json:"attrs"`
 }
 
 func (d xsdDoc) render() string {
@@ -712,7 +722,30 @@ func (d xsdDoc) render() string {
 		}
 		fmt.Fprintf(&b, "    <xs:attribute name=%q type=%q%s/>\n", a.Name, a.Type, use)
 	}
-	b.WriteString("  </xs:complexType>\n  <xs:element name=\"root\" type=\"Item\"/>\n</xs:schema>\n")
+	b.WriteString("  </xs:complexType>\n")
+	for _, dv := range d.Derived {
+		base, tag := "Base", "complexContent"
+		if dv.Content == "simple" {
+			base, tag = "xs:string", "simpleContent"
+		}
+		fmt.Fprintf(&b, "  <xs:complexType name=%q><xs:%s><xs:extension base=%q>\n", dv.Name, tag, base)
+		if len(dv.Elems) > 0 {
+			b.WriteString("    <xs:sequence>\n")
+			for _, e := range dv.Elems {
+				fmt.Fprintf(&b, "      <xs:element name=%q type=%q/>\n", e.Name, e.Type)
+			}
+			b.WriteString("    </xs:sequence>\n")
+		}
+		for _, a := range dv.Attrs {
+			use := ""
+			if a.Required {
+				use = " use=\"required\""
+			}
+			fmt.Fprintf(&b, "    <xs:attribute name=%q type=%q%s/>\n", a.Name, a.Type, use)
+		}
+		fmt.Fprintf(&b, "  </xs:extension></xs:%s></xs:complexType>\n", tag)
+	}
+	b.WriteString("  <xs:element name=\"root\" type=\"Item\"/>\n</xs:schema>\n")
 	return b.String()
 }
 
@@ -725,6 +758,22 @@ func xsdDocs(tier string) []xsdDoc {
 			out = append(out, xsdDoc{Elems: []xsdElem{{Name: "e1", Type: t, Min: o[0], Max: o[1]}}})
 			for _, t2 := range types {
 				out = append(out, xsdDoc{Elems: []xsdElem{{Name: "e1", Type: t, Min: o[0], Max: o[1]}, {Name: "e2", Type: t2}}, Attrs: []xsdAttr{{Name: "a1", Type: "xs:string", Required: true}, {Name: "a2", Type: "xs:int"}}})
+			}
+		}
+	}
+	// types derived by extension: {simple, complex} content x 0..2 attributes x 0..1 added elements
+	attrPool := []xsdAttr{{Name: "da1", Type: "xs:string", Required: true}, {Name: "da2", Type: "xs:int"}}
+	for _, content := range []string{"simple", "complex"} {
+		for na := 0; na <= 2; na++ {
+			for ne := 0; ne <= 1; ne++ {
+				if content == "simple" && ne > 0 {
+					continue
+				}
+				dv := xsdDerived{Name: "Dv", Content: content, Attrs: attrPool[:na]}
+				if ne > 0 {
+					dv.Elems = []xsdElem{{Name: "extra", Type: "xs:date"}}
+				}
+				out = append(out, xsdDoc{Elems: []xsdElem{{Name: "e1", Type: "xs:string"}}, Derived: []xsdDerived{dv, {Name: "Dv2", Content: "complex", Attrs: attrPool[1:]}}})
 			}
 		}
 	}
@@ -782,6 +831,37 @@ func checkXSD(m *sysl.Module, d xsdDoc) (string, string) {
 	}
 	if len(fs) != len(d.Elems)+len(d.Attrs) {
 		return fmt.Sprintf("Item has fields %v for %d elements and %d attributes", keysOf(fs), len(d.Elems), len(d.Attrs)), "extra-fields"
+	}
+	for _, dv := range d.Derived {
+		t := app.GetTypes()[dv.Name]
+		if t == nil {
+			return "derived type " + dv.Name + " is missing", "derived-type-missing"
+		}
+		if len(dv.Attrs)+len(dv.Elems) == 0 {
+			continue // nothing added: an alias of the base is a faithful image
+		}
+		dfs := fieldsByOrigName(t)
+		for _, a := range dv.Attrs {
+			f := dfs[a.Name]
+			if f == nil {
+				return fmt.Sprintf("derived type %s (%sContent extension): attribute %s is missing (fields %v)", dv.Name, dv.Content, a.Name, keysOf(dfs)), "derived-attribute-missing|" + dv.Content
+			}
+			if f.GetOpt() == a.Required || f.GetPrimitive() != prim[a.Type] {
+				return fmt.Sprintf("derived type %s: attribute %s required=%v kind %s: optional=%v kind=%v", dv.Name, a.Name, a.Required, a.Type, f.GetOpt(), f.GetPrimitive()), "derived-attribute-kind"
+			}
+		}
+		for _, e := range dv.Elems {
+			f := dfs[e.Name]
+			if f == nil {
+				return fmt.Sprintf("derived type %s: added element %s is missing (fields %v)", dv.Name, e.Name, keysOf(dfs)), "derived-element-missing"
+			}
+			if inner, _ := elemType(f); inner.GetPrimitive() != prim[e.Type] {
+				return fmt.Sprintf("derived type %s: element %s kind %v", dv.Name, e.Name, inner.GetPrimitive()), "derived-element-kind"
+			}
+		}
+		if dv.Content == "complex" && dfs["id"] == nil {
+			return fmt.Sprintf("derived type %s extends Base but has no field id (fields %v)", dv.Name, keysOf(dfs)), "derived-base-field-missing"
+		}
 	}
 	return "", ""
 }
